@@ -442,7 +442,8 @@ def special_points_body(c):
     if digest([y]) != y_digest or digest([r1]) != r1_digest or digest([y_jvp, t1]) != t1_digest:
         return fail("foreign_write", "a value returned earlier (primal result, cotangent or tangent) changed during a later call", bucket("result_changed"), sample=sample)
     for nm, val in (("make_vjp", y), ("make_jvp", y_jvp), ("plain call afterwards", plain)):
-        if onp.shape(val) != ref.shape or not onp.array_equal(onp.asarray(val), ref):
+        # (a few ulp: NumPy's scalar arithmetic - `np.float64 ** 2` - and the array ufunc autograd routes through round differently)
+        if onp.shape(val) != ref.shape or not onp.allclose(onp.asarray(val), ref, rtol=4e-15, atol=0.0):
             return fail("primal_mismatch", f"the value returned by {nm} differs from NumPy's at a special point", bucket("primal"), sample=sample)
     if not (tree_equal(r1, r1_again) and tree_equal(r1, fresh) and tree_equal(t1, t2)):
         return fail("history_dependence", "the same derivative call repeated (or on a fresh operator) gives a different answer", bucket("not_repeatable"), sample=sample)
